@@ -1,7 +1,217 @@
-From Coq Require Import List Reals String.
+(* C20 property theorems ONLY (each closed by an already proved lemma) + assumptions. *)
+From Coq Require Import List Reals String ZArith NArith Bool Lra Lia.
+From RV Require Import Common.Num Common.RealNum Gen.Units C14.Murmur C20.Units C20.Rotation C20.RotProofs C20.Frames C20.FrameProofs.
+Import ListNotations.
 Open Scope string_scope.
-From RV Require Import Common.Num Common.RealNum Gen.Units C20.Units.
+Open Scope R_scope.
+
+(* ================= units (tables regenerated from rebound/units.py; exhaustive by computation) ================= *)
+(* every entry positive; lengths, masses and G_SI rational; names lower-case and pairwise distinct across the three tables *)
+Theorem C20_tables_wellformed : tables_wellformed = true /\ names_ok = true.
+Proof. exact (conj tables_wellformed_true names_ok_true). Qed.
+Print Assumptions C20_tables_wellformed.
+
+(* day=days=d, yr=year=years=yrs=jyr, au=aus, pc=parsec, g=gram, msun=solarmass=sunmass=msolar *)
+Theorem C20_synonyms_equal : synonyms_ok = true.
+Proof. exact synonyms_ok_true. Qed.
+Print Assumptions C20_synonyms_equal.
+
+(* s=1, m=1, kg=1, hr=3600 s, day=24 hr, yr=365.25 day, kyr/myr/gyr = 10^3/10^6/10^9 yr, km=1000 m, cm=m/100, g=kg/1000 *)
+Theorem C20_prefixes : prefixes_ok = true.
+Proof. exact prefixes_ok_true. Qed.
+Print Assumptions C20_prefixes.
+
+(* for EVERY triple of supported units: the translated convert_G, evaluated on the real values of the entries, is the exact
+   fraction G_SI*m*t^2/l^3 computed over Z (the value the correspondence compares sim.G with), and it is positive *)
+Theorem C20_G_consistent : forall l t m, In l (vals lengths_SI) -> In t (vals times_SI) -> In m (vals masses_SI) ->
+  convert_G RNum (Rval G_SI) (Rval l) (Rval t) (Rval m) = Q2R (Gq l t m) /\ 0 < Q2R (Gq l t m).
+Proof. exact G_consistent. Qed.
+Print Assumptions C20_G_consistent.
+
 Theorem C20_G_is_one :
-  convert_G RNum (Rval G_SI) (Rval (get lengths_SI "au")) (Rval (get times_SI "yr2pi")) (Rval (get masses_SI "msun")) = 1%R.
+  convert_G RNum (Rval G_SI) (Rval (get lengths_SI "au")) (Rval (get times_SI "yr2pi")) (Rval (get masses_SI "msun")) = 1.
 Proof. exact G_is_one. Qed.
 Print Assumptions C20_G_is_one.
+
+Theorem C20_G_in_SI_units :
+  convert_G RNum (Rval G_SI) (Rval (get lengths_SI "m")) (Rval (get times_SI "s")) (Rval (get masses_SI "kg")) = Rval G_SI.
+Proof. exact G_SI_in_SI. Qed.
+Print Assumptions C20_G_in_SI_units.
+
+(* conversion of mass / length / velocity / acceleration between any non-zero unit values: reversible, transitive, identity *)
+Theorem C20_convert_roundtrip : forall l1 l2 t1 t2 m1 m2, l1 <> 0 -> l2 <> 0 -> t1 <> 0 -> t2 <> 0 -> m1 <> 0 -> m2 <> 0 -> forall x,
+  convert_mass RNum (convert_mass RNum x m1 m2) m2 m1 = x /\
+  convert_length RNum (convert_length RNum x l1 l2) l2 l1 = x /\
+  convert_vel RNum (convert_vel RNum x l1 l2 t1 t2) l2 l1 t2 t1 = x /\
+  convert_acc RNum (convert_acc RNum x l1 l2 t1 t2) l2 l1 t2 t1 = x.
+Proof. intros. apply roundtrip; assumption. Qed.
+Print Assumptions C20_convert_roundtrip.
+
+Theorem C20_convert_transitive : forall l1 l2 l3 t1 t2 t3 m1 m2 m3, l2 <> 0 -> l3 <> 0 -> t1 <> 0 -> t2 <> 0 -> m2 <> 0 -> m3 <> 0 -> forall x,
+  convert_mass RNum (convert_mass RNum x m1 m2) m2 m3 = convert_mass RNum x m1 m3 /\
+  convert_length RNum (convert_length RNum x l1 l2) l2 l3 = convert_length RNum x l1 l3 /\
+  convert_vel RNum (convert_vel RNum x l1 l2 t1 t2) l2 l3 t2 t3 = convert_vel RNum x l1 l3 t1 t3 /\
+  convert_acc RNum (convert_acc RNum x l1 l2 t1 t2) l2 l3 t2 t3 = convert_acc RNum x l1 l3 t1 t3.
+Proof. intros. apply transitive; assumption. Qed.
+Print Assumptions C20_convert_transitive.
+
+(* every table value is non-zero: the algebraic theorems apply to every pair / triple of supported units *)
+Theorem C20_table_values_nonzero :
+  (forall v, In v (vals lengths_SI) -> Rval v <> 0) /\ (forall v, In v (vals times_SI) -> Rval v <> 0) /\
+  (forall v, In v (vals masses_SI) -> Rval v <> 0).
+Proof. exact table_values_nonzero. Qed.
+Print Assumptions C20_table_values_nonzero.
+
+(* Newton's law G m / r^2 gives the same acceleration whether evaluated before or after a change of units *)
+Theorem C20_gravity_invariant : forall l1 l2 t1 t2 m1 m2, l1 <> 0 -> l2 <> 0 -> t1 <> 0 -> t2 <> 0 -> m1 <> 0 -> m2 <> 0 ->
+  forall g m r, r <> 0 ->
+  convert_acc RNum (convert_G RNum g l1 t1 m1 * m / (r * r)) l1 l2 t1 t2 =
+  convert_G RNum g l2 t2 m2 * convert_mass RNum m m1 m2 / (convert_length RNum r l1 l2 * convert_length RNum r l1 l2).
+Proof. intros. apply gravity_invariant; assumption. Qed.
+Print Assumptions C20_gravity_invariant.
+
+(* Kepler's third law P^2 G M = k a^3 (k = 4 pi^2) holds for the converted data iff it holds for the original data *)
+Theorem C20_period_invariant : forall l1 l2 t1 t2 m1 m2, l1 <> 0 -> l2 <> 0 -> t1 <> 0 -> t2 <> 0 -> m1 <> 0 -> m2 <> 0 ->
+  forall g k P M a,
+    (P * P * convert_G RNum g l1 t1 m1 * M = k * (a * a * a)) <->
+    (let P' := P * t1 / t2 in let M' := convert_mass RNum M m1 m2 in let a' := convert_length RNum a l1 l2 in
+     P' * P' * convert_G RNum g l2 t2 m2 * M' = k * (a' * a' * a')).
+Proof. intros. apply period_invariant; assumption. Qed.
+Print Assumptions C20_period_invariant.
+
+(* hash_to_unit (reb_hash name) = name for every supported unit name (Murmur model of C14; look-up order of the source);
+   no name hashes to 0 (0 = 'units not set'); check_units recovers (l,t,m) from the three names in any order *)
+Theorem C20_unit_names_read_back : names_read_back = true /\ hashes_nonzero = true /\ check_units_ok = true.
+Proof. exact (conj names_read_back_true (conj hashes_nonzero_true check_units_ok_true)). Qed.
+Print Assumptions C20_unit_names_read_back.
+
+(* units_convert_particle converts m by mass, x y z r by length, vx vy vz by velocity, ax ay az by acceleration *)
+Theorem C20_particle_conversion_complete : pc_eqb particle_conversion particle_conversion_expected = true.
+Proof. exact particle_conversion_ok. Qed.
+Print Assumptions C20_particle_conversion_complete.
+
+(* ================= rotations (over R) ================= *)
+Theorem C20_quaternion_group : forall a b c : quat R,
+  q_mul RNum (q_mul RNum a b) c = q_mul RNum a (q_mul RNum b c) /\
+  q_mul RNum (q_identity RNum) a = a /\ q_mul RNum a (q_identity RNum) = a /\
+  q_lsq RNum (q_mul RNum a b) = q_lsq RNum a * q_lsq RNum b /\
+  (q_lsq RNum a <> 0 -> q_mul RNum a (q_inverse RNum a) = q_identity RNum /\ q_mul RNum (q_inverse RNum a) a = q_identity RNum).
+Proof.
+  intros. split; [apply mul_assoc|]. split; [apply mul_id_l|]. split; [apply mul_id_r|]. split; [apply lsq_mul|].
+  intro H. apply inverse_law. exact H.
+Qed.
+Print Assumptions C20_quaternion_group.
+
+Theorem C20_rotate_preserves_geometry : forall (q : quat R) (a b : vec3 R), q_lsq RNum q = 1 ->
+  v_lsq RNum (rotate RNum a q) = v_lsq RNum a /\
+  v_dot RNum (rotate RNum a q) (rotate RNum b q) = v_dot RNum a b /\
+  rotate RNum (v_cross RNum a b) q = v_cross RNum (rotate RNum a q) (rotate RNum b q) /\
+  v_lsq RNum (v_sub (rotate RNum a q) (rotate RNum b q)) = v_lsq RNum (v_sub a b).
+Proof.
+  intros q a b H. split; [apply rotate_norm; exact H|]. split; [apply rotate_dot; exact H|].
+  split; [apply rotate_cross; exact H | apply rotate_distance; exact H].
+Qed.
+Print Assumptions C20_rotate_preserves_geometry.
+
+Theorem C20_rotate_composes_and_inverts : forall (p q : quat R) (v : vec3 R), q_lsq RNum p = 1 -> q_lsq RNum q = 1 ->
+  rotate RNum v (q_mul RNum p q) = rotate RNum (rotate RNum v q) p /\
+  rotate RNum (rotate RNum v q) (q_inverse RNum q) = v /\ rotate RNum (rotate RNum v (q_inverse RNum q)) q = v /\
+  rotate RNum v (q_identity RNum) = v.
+Proof.
+  intros p q v Hp Hq. split; [apply rotate_mul; assumption|]. destruct (rotate_inverse q v Hq) as [A B].
+  split; [exact A|]. split; [exact B | apply rotate_identity].
+Qed.
+Print Assumptions C20_rotate_composes_and_inverts.
+
+(* reb_simulation_irotate: energy (any G) and angular momentum (as a vector: rotated; hence its magnitude) *)
+Theorem C20_rotate_energy_and_L : forall G (q : quat R) (ps : list body), q_lsq RNum q = 1 ->
+  energy G (map (rotB q) ps) = energy G ps /\
+  angmom (map (rotB q) ps) = rotate RNum (angmom ps) q /\ v_lsq RNum (angmom (map (rotB q) ps)) = v_lsq RNum (angmom ps) /\
+  map snd (map (rotB q) ps) = sim_rotate RNum q (map snd ps).
+Proof.
+  intros G q ps H. split; [apply rotate_energy; exact H|]. destruct (rotate_angmom q ps H) as [A B].
+  split; [exact A|]. split; [exact B | apply rotB_map_is_sim_rotate].
+Qed.
+Print Assumptions C20_rotate_energy_and_L.
+
+Theorem C20_angle_axis : forall c s (axis p : vec3 R), c * c + s * s = 1 -> 0 < v_lsq RNum axis ->
+  let a := v_normalize RNum axis in let q := angle_axis RNum c s axis in
+  q_lsq RNum q = 1 /\ rotate RNum a q = a /\
+  (v_dot RNum a p = 0 -> rotate RNum p q = v_add RNum (v_mul RNum p (c * c - s * s)) (v_mul RNum (v_cross RNum a p) (2 * s * c))).
+Proof. intros c s axis p H Ha. cbv zeta. split; [apply angle_axis_unit; assumption | exact (angle_axis_rotates c s axis p H Ha)]. Qed.
+Print Assumptions C20_angle_axis.
+
+(* init_from_to on ALL branches, every non-zero from/to (thr = the literal 1e-28, any non-negative value): a unit quaternion; it maps
+   from_hat to to_hat on the direct and on the two-stage branch; on the antiparallel branch (|from_hat+to_hat|^2 <= thr) it is a half
+   turn (real part 0) taking from_hat to -from_hat, which is within sqrt(thr) of to_hat *)
+Theorem C20_from_to : forall thr (a b : vec3 R), 0 <= thr -> 0 < v_lsq RNum a -> 0 < v_lsq RNum b ->
+  let f := v_normalize RNum a in let t := v_normalize RNum b in
+  let q := from_to RNum isnormR thr a b in
+  q_lsq RNum q = 1 /\
+  (0 <= v_dot RNum f t \/ thr < v_lsq RNum (v_add RNum f t) -> rotate RNum f q = t) /\
+  (v_dot RNum f t < 0 -> v_lsq RNum (v_add RNum f t) <= thr -> rotate RNum f q = v_mul RNum f (-1) /\ qr q = 0).
+Proof. exact from_to_spec. Qed.
+Print Assumptions C20_from_to.
+
+Theorem C20_from_to_antiparallel : forall thr (a : vec3 R) k, 0 <= thr -> 0 < v_lsq RNum a -> 0 < k ->
+  let b := v_mul RNum a (- k) in let q := from_to RNum isnormR thr a b in
+  q_lsq RNum q = 1 /\ rotate RNum (v_normalize RNum a) q = v_normalize RNum b /\ qr q = 0.
+Proof. exact from_to_antiparallel. Qed.
+Print Assumptions C20_from_to_antiparallel.
+
+(* ================= frames (one phase-space component; all N) ================= *)
+Theorem C20_move_to_com : forall ms qs, ms <> [] -> List.length ms = List.length qs -> pos_prefix 0 ms ->
+  let qs' := move_to_com RNum ms qs in
+  MQ ms qs' = 0 /\ com_q RNum ms qs' = 0 /\
+  (forall i j, (i < List.length qs)%nat -> (j < List.length qs)%nat -> nth i qs' 0 - nth j qs' 0 = nth i qs 0 - nth j qs 0).
+Proof. exact move_to_com_spec. Qed.
+Print Assumptions C20_move_to_com.
+
+Theorem C20_com_is_weighted_mean : forall ms qs, ms <> [] -> List.length ms = List.length qs -> pos_prefix 0 ms ->
+  com_m RNum ms qs = Msum ms /\ 0 < Msum ms /\ com_q RNum ms qs = MQ ms qs / Msum ms.
+Proof. exact com_is_weighted_mean. Qed.
+Print Assumptions C20_com_is_weighted_mean.
+
+Theorem C20_move_to_hel : forall qs, qs <> [] ->
+  let qs' := move_to_hel RNum qs in
+  nth 0 qs' 0 = 0 /\ List.length qs' = List.length qs /\
+  (forall i j, (i < List.length qs)%nat -> (j < List.length qs)%nat -> nth i qs' 0 - nth j qs' 0 = nth i qs 0 - nth j qs 0).
+Proof. exact move_to_hel_spec. Qed.
+Print Assumptions C20_move_to_hel.
+
+Theorem C20_linear_maps : forall (a b : list R) s, List.length a = List.length b ->
+  isub RNum (iadd RNum a b) b = a /\ iadd RNum (isub RNum a b) b = a /\
+  imul RNum s (iadd RNum a b) = iadd RNum (imul RNum s a) (imul RNum s b) /\
+  (forall i, (i < List.length a)%nat -> nth i (iadd RNum a b) 0 = nth i a 0 + nth i b 0 /\ nth i (isub RNum a b) 0 = nth i a 0 - nth i b 0) /\
+  (forall i, nth i (imul RNum s a) 0 = nth i a 0 * s).
+Proof.
+  intros a b s H. destruct (iadd_isub_inverse a b H) as [E1 E2]. split; [exact E1|]. split; [exact E2|].
+  split; [apply imul_linear; exact H|]. split; [apply iadd_nth; exact H | apply imul_nth].
+Qed.
+Print Assumptions C20_linear_maps.
+
+(* the shift applied to a first-order variational set is the first-order variation of the centre of mass, and the set moves rigidly *)
+Theorem C20_var1_is_com_variation : forall l, let M := Msum (l_m l) in M <> 0 ->
+  let S1 := var1_shift RNum M l in let C := MQ (l_m l) (l_q l) / M in let dM := Msum (l_dm l) in
+  forall eps,
+    (M + eps * dM) * (C + eps * S1) - (MQ (l_m l) (l_q l) + eps * (MQ (l_m l) (l_dq l) + MQ (l_dm l) (l_q l)) + eps * eps * MQ (l_dm l) (l_dq l))
+    = eps * eps * (dM * S1 - MQ (l_dm l) (l_dq l)).
+Proof. exact var1_is_com_variation. Qed.
+Print Assumptions C20_var1_is_com_variation.
+
+(* ================= non-vacuity ================= *)
+Example C20_hypotheses_inhabited :
+  (* a non-trivial rotation and non-zero, non-parallel vectors *)
+  (let q := mkQ (1/2) (1/2) (1/2) (1/2) in q_lsq RNum q = 1 /\ rotate RNum (mkV 1 2 3) q = mkV 3 1 2) /\
+  (0 < v_lsq RNum (mkV 1 2 2) /\ 0 <= / IZR (10 ^ 28)) /\
+  (* a 3-body system with a zero-mass body *)
+  (let ms := [1; 0; 1/1000] in pos_prefix 0 ms /\ ms <> [] /\ List.length ms = List.length [1/2; -2; 7]) /\
+  (* a unit triple of the tables *)
+  (In (get lengths_SI "pc") (vals lengths_SI) /\ In (get times_SI "yr2pi") (vals times_SI) /\ In (get masses_SI "mearth") (vals masses_SI)).
+Proof.
+  split; [|split; [|split]].
+  - cbv zeta. split; [RotProofs.unf; lra | apply vec_eq; RotProofs.unf; lra].
+  - split; [RotProofs.unf; lra|]. apply Rlt_le, Rinv_0_lt_compat, IZR_lt. reflexivity.
+  - cbv zeta. cbn [pos_prefix length]. split; [split; [lra | split; [lra | split; [lra | exact I]]]|]. split; [discriminate | reflexivity].
+  - vm_compute. tauto.
+Qed.
